@@ -95,6 +95,7 @@ def run(cs, tier, run_index):
     except Exception as e:
         res.violate("C09.hedge.state", why="constructor raised on a valid operator", exc=type(e).__name__, msg=str(e)[:200], **meta)
         return res
+    obj_shadow = np.array(obj._q_a, copy=True) if hasattr(obj, "_q_a") else None  # the object right after construction
     interloper = None
     if cfg.draw(3) == 2 or run_index % 8 == 7:
         q2, _, _ = draw_q(cs.s("game:2"), like=meta)
@@ -111,7 +112,7 @@ def run(cs, tier, run_index):
         res.log.add("op", k, nm, out[1] if out[0] == "ok" else out[:2])
         res.checks_sim += 1
         try:
-            same = _same(obj._q_a, q0) and _same(caller, q0) and obj._num_reps == n
+            same = (obj_shadow is None or _same(obj._q_a, obj_shadow)) and _same(caller, q0) and obj._num_reps == n
         except AttributeError:
             same = _same(caller, q0)  # private attributes may be renamed by a refactor; the caller's array may not change
         if not same:
